@@ -25,7 +25,8 @@ MIN_HELD = {'quick': 300, 'thorough': 23923}
 
 
 def cells(tier, seed):
-    return c01.cells(tier, seed + 2000)
+    # (user-defined random banks are not perfect-reconstruction pairs: outside C02)
+    return [c for c in c01.cells(tier, seed + 2000) if not c.get('custom')]
 
 
 def build_inv(cell, dtype=None):
